@@ -335,6 +335,7 @@ static int ledger_quiescent(void)
 	}
 	return 1;
 }
+static long n_eintr;
 int __wrap_epoll_wait(int epfd, struct epoll_event *ev, int maxev, int timeout)
 {
 	iter++; n_iters++;
@@ -365,6 +366,11 @@ int __wrap_epoll_wait(int epfd, struct epoll_event *ev, int maxev, int timeout)
 		if (iter > iter_budget || (ledger_quiescent() && n == 0)) qb_loop_stop(L);
 	} else {
 		if (iter > iter_budget) qb_loop_stop(L);
+	}
+	/* a signal the loop does not manage (the application's own handler) interrupts the wait part way through */
+	if (mode == M_TIMERS && n == 0 && timeout > 1 && !draining && vp_chance(&rng, 1, 12)) {
+		uint64_t part = (uint64_t)timeout * 1000000ULL; part = part / 2 + vp_next(&rng) % (part / 2);
+		vnow += part; n_eintr++; errno = EINTR; return -1;
 	}
 	if (n == 0) {
 		if (timeout > 0) vnow += (uint64_t)timeout * 1000000ULL;
@@ -431,14 +437,15 @@ static void ledger_case(long kase)
 
 /* ---- fairness (C10) -------------------------------------------------------- */
 static int fair_src_prio[200], fair_src_kind[200], fair_nsrc; static struct ud *fair_ud[200]; static int fair_fd[200];
-static long fair_total[3];
+static long fair_total[3]; static long n_item_gaps_judged;
 static void fair_job(void *data);
 static void fair_readd(int s)
 {
 	if (fair_src_kind[s] == 0) qb_loop_job_add(L, (enum qb_loop_priority)fair_src_prio[s], fair_ud[s], fair_job);
 	else { qb_loop_timer_handle th; qb_loop_timer_add(L, (enum qb_loop_priority)fair_src_prio[s], 0, fair_ud[s], fair_job, &th); }
 }
-static void fair_note(int s) { int p = fair_src_prio[s]; if (iter < 4096) fair_disp[p][iter]++; fair_total[p]++; }
+static long fair_last[200], fair_gap[200];
+static void fair_note(int s) { int p = fair_src_prio[s]; if (iter < 4096) fair_disp[p][iter]++; fair_total[p]++; if (iter > 8 && iter - fair_last[s] > fair_gap[s]) fair_gap[s] = iter - fair_last[s]; fair_last[s] = iter; }
 static void fair_job(void *data) { struct ud *u = data; fair_note(u->reg); fair_readd(u->reg); }
 static int32_t fair_fdcb(int32_t fd, int32_t rev, void *data) { (void)fd; (void)rev; struct ud *u = data; fair_note(u->reg); return 0; }
 
@@ -446,7 +453,7 @@ static void fair_case(long kase)
 {
 	vp_seed(&rng, vp.seed, (uint64_t)kase);
 	iter = 0; vnow = 5000ULL * 1000000000ULL; clock_res_ns = 1; nR = 0;
-	memset(fair_disp, 0, sizeof fair_disp); memset(fair_total, 0, sizeof fair_total);
+	memset(fair_disp, 0, sizeof fair_disp); memset(fair_total, 0, sizeof fair_total); memset(fair_last, 0, sizeof fair_last); memset(fair_gap, 0, sizeof fair_gap);
 	L = qb_loop_create();
 	fair_nsrc = 0; int per[3];
 	for (int p = 0; p < 3; p++) { per[p] = vp_chance(&rng, 1, 6) ? 0 : 1 + (int)vp_u(&rng, vp_chance(&rng, 1, 3) ? 50 : 6); fair_backlog[p] = per[p] > 0; }
@@ -477,6 +484,18 @@ static void fair_case(long kase)
 		for (long i = 6; i + 2 < last; i++) if (fair_disp[p][i] + fair_disp[p][i + 1] + fair_disp[p][i + 2] == 0) {
 			char k[96]; snprintf(k, sizeof k, "loop:priority-level-starved:%s", p == 0 ? "LOW" : p == 1 ? "MED" : "HIGH");
 			vp_violation(k, "no dispatch at this level in iterations %ld..%ld although it is backlogged (%s)", i, i + 2, desc); break; }
+	/* every single item: within a level the queue is first in, first out and a visit of the level takes 4 items, so an
+	 * item of a level with n items waits about 3 * ceil(n / 4) iterations.  Jobs and zero-delay timers are always at
+	 * hand; descriptors are judged while epoll can report all of them at once */
+	for (int s2 = 0; s2 < fair_nsrc && last > 40; s2++) {
+		int p = fair_src_prio[s2]; if (!fair_backlog[p]) continue;
+		if (fair_src_kind[s2] == 2 && total_fds > 10) continue;
+		int nlev = 0; for (int s3 = 0; s3 < fair_nsrc; s3++) if (fair_src_prio[s3] == p) nlev++;
+		long bound = 3 * ((nlev + 3) / 4 + 2) + 3; long gap = fair_gap[s2]; if (last - fair_last[s2] > gap) gap = last - fair_last[s2];
+		n_item_gaps_judged++;
+		if (gap > bound) { char k[96]; snprintf(k, sizeof k, "loop:item-starved-within-its-level:%s", fair_src_kind[s2] == 0 ? "job" : fair_src_kind[s2] == 1 ? "timer" : "descriptor");
+			vp_violation(k, "a %s item waited %ld iterations (bound %ld for the %d items of its level) (%s)", p == 0 ? "LOW" : p == 1 ? "MED" : "HIGH", gap, bound, nlev, desc); break; }
+	}
 	/* ratio over whole rounds of three iterations, all backlogged levels */
 	long sum[3] = { 0, 0, 0 }; long from = 6, to = from + ((last - from) / 3) * 3;
 	for (int p = 0; p < 3; p++) for (long i = from; i < to; i++) sum[p] += fair_disp[p][i] > 0;  /* dispatch opportunities used */
@@ -484,7 +503,7 @@ static void fair_case(long kase)
 		vp_violation("loop:lower-priority-served-more-often", "iterations with a dispatch: %s=%ld %s=%ld over %ld iterations (%s)", p == 2 ? "HIGH" : "MED", sum[p], q == 1 ? "MED" : "LOW", sum[q], to - from, desc); }
 	int nb = fair_backlog[0] + fair_backlog[1] + fair_backlog[2];
 	if (nb >= 2) vp_distinct(vp_hash_bytes(99, desc, dn));
-	vp_count("fair_dispatches_low", fair_total[0]); vp_count("fair_dispatches_med", fair_total[1]); vp_count("fair_dispatches_high", fair_total[2]);
+	vp_count("waits_interrupted_by_a_signal", n_eintr); vp_count("items_judged_for_their_own_waiting_time", n_item_gaps_judged); vp_count("fair_dispatches_low", fair_total[0]); vp_count("fair_dispatches_med", fair_total[1]); vp_count("fair_dispatches_high", fair_total[2]);
 	if (kase % 101 == 0) vp_sample("fair case=%ld %s iterations=%ld dispatches L/M/H=%ld/%ld/%ld iterations-with-dispatch L/M/H=%ld/%ld/%ld", kase, desc, iter, fair_total[0], fair_total[1], fair_total[2], sum[0], sum[1], sum[2]);
 	for (int s = 0; s < fair_nsrc; s++) { if (fair_fd[s] >= 0) { qb_loop_poll_del(L, fair_fd[s]); close(fair_fd[s]); } }
 	qb_loop_destroy(L); L = NULL;
